@@ -39,12 +39,12 @@ def run(args):
         ctx.evaluations = len(cases)
 
         def canon_real(req, real):
-            if req.startswith("c15 build"):
+            if req.startswith("c15 build") or req.startswith("c15 trigger"):
                 parts = real.split(" | ")
                 return parts[0] if parts[0].startswith("refused") else " | ".join(parts[:2])
             return real
         man = [(c, m) for c, m in zip(cases, model) if c[0].startswith("c15 manifest")]
-        bld = [(c, m) for c, m in zip(cases, model) if c[0].startswith("c15 build")]
+        bld = [(c, m) for c, m in zip(cases, model) if c[0].startswith("c15 build") or c[0].startswith("c15 trigger")]
         ctx.tie("model manifest = Cargo.toml written by ProjectGenerator (flags × crate sets, whole known table, unknown names)",
                 [(c[0], canon_real(*c)) for c, _ in man], [m for _, m in man])
         ctx.tie("model manifest = Cargo.toml written by `incan build` (feature-triggering programs × rust:: imports, main and dependency modules)",
@@ -87,7 +87,7 @@ def run(args):
             exp = set(fixed(s, t, a)) | set(crates)
             if set(names) != exp:
                 failures.append({"request": req, "real": real[:300], "why": f"declared {sorted(names)} but needed exactly {sorted(exp)}"})
-            if kind == "build" and len(parts) > 2:
+            if kind in ("build", "trigger") and len(parts) > 2:
                 refs = set(parts[2][5:].split(",")) - {"-", ""}
                 if not refs <= set(names):
                     failures.append({"request": req, "real": real[:300], "why": f"generated code refers to {sorted(refs - set(names))} which are not declared"})
